@@ -65,10 +65,17 @@ var primSize = map[string]int{"double": 8, "uint64_t": 8, "int64_t": 8, "float":
 var enumWire = []string{"uint8_t", "uint16_t", "uint32_t", "int32_t", "uint64_t", "int8_t"}
 
 type gram struct {
-	r     *rand.Rand
-	names map[string]bool
-	ids   map[int]bool
+	r      *rand.Rand
+	names  map[string]bool
+	ids    map[int]bool
+	wordIx int // next reserved word to end a name with (all of them are visited in turn)
 }
+
+var goReservedWords = []string{"TEST",
+	"AIX", "ANDROID", "DARWIN", "DRAGONFLY", "FREEBSD", "HURD", "ILLUMOS", "IOS", "JS", "LINUX", "NACL", "NETBSD", "OPENBSD",
+	"PLAN9", "SOLARIS", "WASIP1", "WINDOWS", "ZOS",
+	"386", "AMD64", "AMD64P32", "ARM", "ARMBE", "ARM64", "ARM64BE", "LOONG64", "MIPS", "MIPSLE", "MIPS64", "MIPS64LE", "MIPS64P32",
+	"MIPS64P32LE", "PPC", "PPC64", "PPC64LE", "RISCV", "RISCV64", "S390", "S390X", "SPARC", "SPARC64", "WASM"}
 
 func (g *gram) upperName(prefix string) string {
 	for {
@@ -90,11 +97,14 @@ func (g *gram) upperName(prefix string) string {
 			parts = append(parts, string(b))
 		}
 		nm := prefix + strings.Join(parts, "_")
-		if g.r.Intn(12) == 0 {
-			// names ending with a word the Go tool reserves in file names are valid MAVLink names too
-			nm += "_" + []string{"TEST", "JS", "LINUX", "ARM64", "WINDOWS", "WASM", "386"}[g.r.Intn(7)]
-			if g.r.Intn(3) == 0 {
-				nm = prefix + []string{"TEST", "JS", "LINUX"}[g.r.Intn(3)]
+		if g.r.Intn(8) == 0 {
+			// names ending with a word the Go tool reserves in file names are valid MAVLink names too: "test" and every
+			// operating system and architecture go/build knows - past, present and future (its lists knownOS / knownArch)
+			w := goReservedWords[g.wordIx%len(goReservedWords)]
+			g.wordIx += 7
+			nm += "_" + w
+			if g.r.Intn(4) == 0 && !(prefix == "" && w[0] >= '0' && w[0] <= '9') {
+				nm = prefix + w // the word alone (a name has to start with a letter: not "386" on its own)
 			}
 		}
 		if !g.names[nm] {
@@ -258,7 +268,7 @@ func (g *gram) message(enums []XEnum) XMsg {
 }
 
 func genDoc(r *rand.Rand, idx int) XDoc {
-	g := &gram{r: r, names: map[string]bool{}, ids: map[int]bool{}}
+	g := &gram{r: r, names: map[string]bool{}, ids: map[int]bool{}, wordIx: idx*5 + r.Intn(43)}
 	nfiles := 1 + r.Intn(4)
 	collide := idx%3 == 0 // every third document has two include files with colliding names
 	if collide && nfiles < 3 {
